@@ -139,6 +139,26 @@ pub fn run_all(inp: &Inputs, reps: usize) -> Vec<(String, String)> {
     };
     let many: Vec<(usize, (MultiPolygon<f64>, MultiLineString<f64>, MultiPoint<f64>))> = [16usize, 64, 257].iter().map(|&n| (n, many_members(n))).collect();
     for rep in 0..reps {
+        // point location in a monotone subdivision: every query on a fresh subdivision ("rep0") and as the second query on one that has just answered
+        // another query ("rep1"), for every ordered pair of half-step lattice points; the polygon has vertical edges and inner chain vertices
+        if rep == 0 {
+            use geo::coordinate_position::CoordinatePosition;
+            let stairs = Polygon::new(LineString::from(vec![(0.0, 0.0), (4.0, 0.0), (4.0, 2.0), (6.0, 2.0), (6.0, 5.0), (2.0, 5.0), (2.0, 3.0), (0.0, 3.0), (0.0, 0.0)]), vec![LineString::from(vec![(3.0, 3.0), (3.0, 4.0), (5.0, 4.0), (5.0, 3.0), (3.0, 3.0)])]);
+            let qs: Vec<Coord<f64>> = (0..13).flat_map(|i| (0..11).map(move |j| Coord { x: i as f64 / 2.0, y: j as f64 / 2.0 })).collect();
+            let answer = |m: &MonotonicPolygons<f64>, q: &Coord<f64>| -> String { format!("{} {:?}", m.intersects(q), m.subdivisions().iter().map(|p| p.coordinate_position(q)).collect::<Vec<_>>()) };
+            let alone: Vec<String> = qs.iter().map(|q| answer(&MonotonicPolygons::from(stairs.clone()), q)).collect();
+            for (i, p) in qs.iter().enumerate() {
+                let mut after = String::new();
+                for q in qs.iter() {
+                    let m = MonotonicPolygons::from(stairs.clone());
+                    let _ = answer(&m, p);
+                    after.push_str(&answer(&m, q));
+                    after.push(';');
+                }
+                rec(format!("monotone point location fresh vs as the second query|after query {}|rep0", i), alone.iter().map(|a| format!("{};", a)).collect::<String>());
+                rec(format!("monotone point location fresh vs as the second query|after query {}|rep1", i), after);
+            }
+        }
         // equal input after a different earlier input of the same size: the concave hull of each of eight 9-point sets first on its own ("rep0"), then
         // directly after the hull of each other set ("rep1") - a result remembered from the previous call must not leak into the next one
         if rep == 0 {
